@@ -474,6 +474,8 @@ def variants():
         Variant("b-absolute-floor", "bad", replace_expr(st, "fit_mvstud", "np.var(data, axis=1)", "np.maximum(np.var(data, axis=1), 1e-08)"), ["C19.b"], quick=True),
         Variant("b-absolute-ridge", "bad", replace_expr(st, "fit_mvstud", "1 / n * np.diag(np.var(data, axis=1))", "1e-06 * np.eye(dim)"), ["C19.b"]),
         Variant("c-wrong-array", "bad", replace_expr(md, "ModeStatistics.from_particles", "u_cluster[idx_resample]", "u[idx_resample]"), ["C19.c"], quick=True),
+        Variant("f-pooled-jitter", "bad", replace_stmt(md, "ModeStatistics.from_global", "u_resampled = u[idx_resample]", "u_resampled = u[idx_resample]\nu_resampled = u_resampled + 1e-3 * np.std(u_resampled) * np.random.standard_normal(u_resampled.shape)"), ["C19.f"], quick=True),
+        Variant("f-benign-per-coordinate-jitter", "benign", replace_stmt(md, "ModeStatistics.from_global", "u_resampled = u[idx_resample]", "u_resampled = u[idx_resample]\nu_resampled = u_resampled + 1e-3 * np.std(u_resampled, axis=0) * np.random.standard_normal(u_resampled.shape)")),
         Variant("e-trace-shrinkage", "bad", replace_stmt(st, "fit_mvstud", "nu = 20", "Sigma = 0.9 * Sigma + 0.1 * np.trace(Sigma) / dim * np.eye(dim)\nnu = 20"), ["C19.e"], quick=True),
         Variant("e-relative-ridge", "bad", replace_expr(st, "fit_mvstud", "1 / n * np.diag(np.var(data, axis=1))", "1 / n * np.mean(np.var(data, axis=1)) * np.eye(dim)"), ["C19.e"]),
         Variant("e-location-global-median", "bad", replace_expr(st, "fit_mvstud", "np.median(data, 1)", "np.median(data, 1) * 0 + np.median(data)"), ["C19.e"]),
